@@ -181,6 +181,57 @@ Proof.
 Qed.
 End Decisions.
 
+(** SIGN BRIDGE.  The code decides on `diff` = (shock temperature of the ENTROPY-conserving
+    matching) - Tn; the property speaks about the entropy mismatch `mism` of the matching that
+    REACHES Tn.  Their signs agree (hypothesis, physics: both vanish exactly at the LTE
+    velocity and neither changes sign elsewhere; validated by the harness on the scan grid).
+    Under it the sentinel clauses read as the property states them. *)
+Section Bridge.
+Variables epsJ epsS : Q.
+Variable o : oracles.
+Variables vMin vJ csTn : Q.
+Variable mism : Q -> Q.
+Hypothesis bridge_pos : forall v, 0 < fst (diff o v) <-> 0 < mism v.
+Hypothesis bridge_neg : forall v, fst (diff o v) < 0 <-> mism v < 0.
+
+Lemma static_mismatch : findvwLTE epsJ epsS o vMin vJ csTn = Static -> mism vMin < 0.
+Proof. intro H. destruct (static_sound _ _ _ _ _ _ H) as (vmax & _ & _ & _ & H3).
+  apply bridge_neg. exact H3. Qed.
+
+Lemma runaway_mismatch : findvwLTE epsJ epsS o vMin vJ csTn = Runaway ->
+  (0 < shock o (vJ - epsJ) /\ rootShock o csTn vJ = None) \/
+  exists vmax, vmax_of epsJ epsS o vJ csTn = Some vmax /\
+    (0 < mism vmax \/ snd (diff o vmax) = false).
+Proof.
+  intro H. destruct (runaway_sound _ _ _ _ _ _ H) as [A|(vmax & E & [B|B])].
+  - left. exact A.
+  - right. exists vmax. split; [exact E|]. left. apply bridge_pos. exact B.
+  - right. exists vmax. split; [exact E|]. right. exact B.
+Qed.
+
+Lemma interior_mismatch v : findvwLTE epsJ epsS o vMin vJ csTn = Interior v ->
+  exists vmax, vmax_of epsJ epsS o vJ csTn = Some vmax /\
+    ~ 0 < mism vmax /\ ~ mism vMin < 0 /\ v = rootDiff o vMin vmax.
+Proof.
+  intro H. destruct (interior_sound _ _ _ _ _ _ v H) as (vmax & E & H1 & _ & H3 & Hv).
+  exists vmax. split; [exact E|]. repeat split.
+  - intro A. apply bridge_pos in A. apply (Qlt_irrefl 0). eapply Qlt_le_trans; eassumption.
+  - intro A. apply bridge_neg in A. apply (Qlt_irrefl 0). eapply Qle_lt_trans; eassumption.
+  - exact Hv.
+Qed.
+
+(** Tn boundary: the root finder returns a zero of the shooting function => the shock
+    temperature of the entropy-conserving matching at the returned velocity is exactly Tn *)
+Hypothesis rootDiff_zero : forall a b, fst (diff o (rootDiff o a b)) == 0.
+
+Lemma interior_reaches_Tn v : findvwLTE epsJ epsS o vMin vJ csTn = Interior v ->
+  fst (diff o v) == 0.
+Proof.
+  intro H. destruct (interior_sound _ _ _ _ _ _ v H) as (vmax & _ & _ & _ & _ & ->).
+  apply rootDiff_zero.
+Qed.
+End Bridge.
+
 (** helpers for the correspondence files (oracles tabulated from a recorded run) *)
 Definition near (a v : Q) : bool :=
   if Qlt_le_dec (Qabs (v - a)) (1 # 1000000000000) then true else false.
